@@ -172,6 +172,10 @@ def finish(res, level, level_rule, assumptions):
            "rule": level_rule, "samples": res.samples[:8] or [{"note": "no sample recorded"}],
            "model_checking_steps": res.mc, "replay_steps": res.replays,
            "other_property_mismatches_seen": res.other_tags, "drift_lines": res.drift, "notes": res.notes}
+    if level == "other":
+        cov["explanation"] = ("the specification contributes outcome coverage (TLC skeleton: one witness per abstract automaton state, "
+                              "every verdict and error kind); the judgement is a counting global allocator around every replayed call "
+                              "(%d calls, all outcomes listed under replay_steps) and an allocator-less no_std link" % res.evaluations)
     cov.update(res.extra)
     write_evidence(res.prop, res.tier, res.seed, level, cov, wall, len(new), assumptions + res.assumptions)
     if res.drift:
